@@ -12,6 +12,7 @@
   (executor.go NewSession, pty_unix.go NewPTYSession: first statement, early return on error).
 -/
 import MM.Lemmas.C25
+import MM.Gen.LockC25
 
 namespace MM.C25
 open MM
@@ -37,6 +38,19 @@ theorem C25_start_implies (pwOK : Bytes → Bytes → Bool) (c : Cfg) (m : Meta)
     right
     have ⟨h1, h2, h3⟩ := isCommandAllowed_noWild hw hcmd
     exact ⟨h1, h2, h3, validateArgs_none hw hargs⟩
+
+/-- What RUNS is what was validated: the process gets exactly the request's command and arguments
+    (tied to `exec.Cmd.Args` of the real sessions by the `argv` / `argvp` ops), so unless the
+    whitelist is the wildcard every argument the process receives is free of metacharacters and
+    not an absolute path, and argv[0] is the whitelisted base name. -/
+theorem C25_runs_validated (pwOK : Bytes → Bytes → Bool) (c : Cfg) (m : Meta) (n : Int)
+    (h : (validateAndAcquire pwOK c m n).1 = .ok) (hw : hasWildcard c = false) :
+    (processArgv m).head? = some m.command ∧ m.command ∈ c.whitelist ∧
+    ∀ a ∈ (processArgv m).tail, dangerous a = false ∧ isAbs a = false := by
+  have := (C25_start_implies pwOK c m n h).2.2.1
+  rcases this with hw' | ⟨hm, _, _, ha⟩
+  · rw [hw] at hw'; cases hw'
+  · exact ⟨rfl, hm, ha⟩
 
 /-- A refused request leaves the counter alone. -/
 theorem C25_reject_keeps_counter (pwOK : Bytes → Bytes → Bool) (c : Cfg) (m : Meta) (n : Int)
@@ -102,6 +116,27 @@ theorem C25_sessions_le_max (c : Cfg) (s : St) (h : Reachable c s) :
       · have := ih2 hp
         show ((s.held - 1 : Nat) : Int) ≤ _
         omega
+
+/-! ### atomic-step tie (tools/lockshape.go)
+
+`C25_sessions_le_max` quantifies over interleavings of two atomic steps: "check the limit and
+increment" and "decrement".  That granularity is a fact about executor.go: the counter is touched
+only inside `AcquireSession` / `ReleaseSession`, each of which takes `e.mu` once and holds it for
+every access; `validateAndAcquire` reaches the counter only through `AcquireSession`. -/
+
+theorem C25_counter_atomic :
+    -- every access to `sessions` is made with the write lock held
+    Gen.LockC25.accesses.all (fun a => a.2.2.2 == "W") = true ∧
+    -- … and only from AcquireSession / ReleaseSession (never directly from validateAndAcquire)
+    Gen.LockC25.accesses.all (fun a => a.1 == "Executor.AcquireSession" || a.1 == "Executor.ReleaseSession") = true ∧
+    -- check-and-increment / decrement are ONE critical section each
+    Gen.LockC25.acquisitions.all (fun a =>
+      if a.1 == "Executor.AcquireSession" || a.1 == "Executor.ReleaseSession" then a.2 == 1 else a.2 == 0) = true ∧
+    -- admission takes its slot by calling AcquireSession, and calls nothing else that could touch the counter
+    Gen.LockC25.calls.any (fun c => c.1 == "Executor.validateAndAcquire" && c.2.1 == "AcquireSession") = true ∧
+    Gen.LockC25.calls.all (fun c => c.1 != "Executor.validateAndAcquire" ||
+      ["AcquireSession", "IsCommandAllowed", "ValidateArgs", "ValidateAuth", "hasWildcard"].contains c.2.1) = true := by
+  decide
 
 /-! Non-vacuity. -/
 
